@@ -14,7 +14,7 @@ type GenCfg struct {
 	MaxParts     int      // cap on parts per level
 	MaxDepth     int      // collection nesting
 	PEmpty       float64  // probability that a component is empty
-	FloatMode    int      // 0 small, 1 any bits, 2 finite (no NaN/Inf), 3 finite and moderate (|v| in [2^-40, 2^40] or small: products cannot overflow)
+	FloatMode    int      // 0 small, 1 any bits, 2 finite (no NaN/Inf), 3 finite and moderate (|v| in [2^-40, 2^40] or small: products cannot overflow), 4 any value but NaN
 	SRIDMode     int      // 0 none, 1 interesting values
 	MixLayout    bool     // collection members may differ in layout
 	ClosedRings  bool     // rings are closed with >= 4 points when non-empty
@@ -72,6 +72,13 @@ func (c GenCfg) float(r *prng.Rand) F {
 		for {
 			v := r.AnyFloatBits()
 			if !math.IsNaN(v) && !math.IsInf(v, 0) {
+				return F(v)
+			}
+		}
+	case 4: // everything that is ordered: any value but NaN, infinities included
+		for {
+			v := r.AnyFloatBits()
+			if !math.IsNaN(v) {
 				return F(v)
 			}
 		}
